@@ -1725,8 +1725,9 @@ func runC14(c *Ctx) int {
 						}
 						cs.Origin = fmt.Sprintf("random/%d/seed=%d", i-nGrid, jobSeeds[k])
 					}
+					tok := guardBegin()
 					results[k] = c14RunCase(cs, wdir, i == 4 || (i >= nGrid && (i-nGrid)%sampleEvery == 0))
-					guardProgress.Add(1)
+					guardEnd(tok)
 				}
 			}(wdirs[w])
 		}
